@@ -633,7 +633,26 @@ func uriWithin(uri, constraint string) bool {
 	return dnsWithin(mustURL(uri).Hostname(), constraint)
 }
 
-func ipWithin(ip net.IP, n *net.IPNet) bool { return n.Contains(ip) }
+// ipWithin works bit by bit: the address lies in the range iff it has the
+// range's address family and agrees with the network address on every one of
+// the first "ones" bits (RFC 5280 4.2.1.10: address followed by mask, RFC 4632
+// style).
+func ipWithin(ip net.IP, n *net.IPNet) bool {
+	a, b := []byte(ip), []byte(n.IP)
+	if v4 := ip.To4(); v4 != nil && len(n.IP) == net.IPv4len {
+		a = v4
+	}
+	ones, bits := n.Mask.Size()
+	if len(a) != len(b) || bits != 8*len(b) {
+		return false
+	}
+	for i := 0; i < ones; i++ {
+		if (a[i/8]>>(7-uint(i%8)))&1 != (b[i/8]>>(7-uint(i%8)))&1 {
+			return false
+		}
+	}
+	return true
+}
 
 func checkKind[N any, C any](kind string, names []N, perm, excl []C, within func(N, C) bool, lower, ca string) string {
 	for _, name := range names {
